@@ -10,6 +10,7 @@ import Chewing.Driver.Util
     cstr copy <cap> x<text>              => b<bytes up to the last non-zero byte> <trailing zero bytes>
     cstr get <which> <cap> x<heap text>  => b<…> <…>          (a context buffer after its static getter)
     cstr valid b<bytes>                  => 0|1               (`utf8Decode` vs `str::from_utf8`)
+    cstr selkeys <k0,…,k9>               => 0 x<text> | -1 -  (`chewing_config_get_str("chewing.selection_keys")` for these keys)
     own run <call,…>                     => ok                (else `ub@i:<site>`, `ret@i:<fn>:<model result>`, `heap@i:<fn>`, `parse@i`)
     own mem <call,…>                     => clean|ub          (model: does the history use an invalid object)
     own memsub <clean|ub> <call,…>       => ok                (memcheck error ⇒ the model predicted ub; else `unpredicted`)
@@ -50,6 +51,13 @@ def cstrExpected (fn : String) (args : List String) : Option String :=
       else if copyCstrShape == 1 then some (dumpText (copyCstr c (unhex x)))
       else some (dumpText (copyCstrOld c (unhex x)))
     | none => none
+  | "selkeys", [ks] =>
+    -- chewing_config_get_str("chewing.selection_keys") for the keys the context holds
+    let keys : List Int := ((ks.splitOn ",").filter (· != "")).map fun t => t.toInt?.getD 0
+    if selKeysGetterShape != 1 then none
+    else match selKeysCStr keys with
+      | none => some "-1 -"
+      | some buf => (cText buf).map fun t => s!"0 {hexBytes 'x' t}"
   | "valid", [b] => some (if (Chewing.CStr.utf8Decode (unhex b)).isSome then "1" else "0")
   | _, _ => none
 
@@ -94,9 +102,11 @@ def parseCall (tok : String) : Option (Op × Option Int) :=
         | _, _ => none
       op.map (·, ret)
 
-/-- the step function of the code the translator saw (`chewing_free` removing the registry entry or not) -/
+/-- the step function of the code the translator saw (`chewing_free` removing the registry entry or not; the user-phrase
+iterator owning a snapshot or borrowing the dictionary) -/
 def stepNow (c : Ctx) (op : Op) : Outcome (Ctx × Res) :=
-  if freeRemoves == 1 then step c op else stepOld c op
+  if userphraseIterBorrows == 1 then stepBorrow c op
+  else if freeRemoves == 1 then step c op else stepOld c op
 
 /-- replay a history: first disagreement / undefined step, or `ok` -/
 def replay (c : Ctx) (i : Nat) : List String → String
